@@ -294,3 +294,10 @@ def poskey(g, i):
 
 def default_or(g, i, missing):
   return z3.If(sig_hasdef(g, i), sig_dflt(g, i), missing)
+
+
+# class objects as values: the class id instances of a class value get, and the class value of a class id
+type_cid = z3.Function('type_cid', Val, I)
+typeval = z3.Function('typeval', I, Val)
+# last index of key k in the first n elements of the sequence K (-1 if absent): spec function of dict(zip(K, V))
+zip_last = z3.Function('zip_last', ValArr, I, Val, I)
